@@ -26,7 +26,13 @@ PIDFILE = "/run/app.pid"
 def sim_cfgs(params):
     bind = ["unix:/run/app.sock"] if params["bind"] == "unix" else ["127.0.0.1:8000"]
     c = sk.make_cfg(workers=params["workers"], timeout=params["timeout"], graceful_timeout=GRACEFUL, pidfile=PIDFILE, bind=bind)
-    return [c, c, c]
+    rg = params.get("reload_graceful")
+    if rg is None:
+        return [c, c, c]
+    # every reload (HUP) installs a configuration with another graceful_timeout: the one in force when the stop
+    # signal is handled is the one that counts
+    c2 = sk.make_cfg(workers=params["workers"], timeout=params["timeout"], graceful_timeout=rg, pidfile=PIDFILE, bind=bind)
+    return [c, c2, c2]
 
 
 def sim_execute(params, script, inject=None):
@@ -39,6 +45,10 @@ def sim_execute(params, script, inject=None):
 def sim_judge(params, k, o, stop_sig, label=None):
     at = ("@" + label) if label else ""
     bad = []
+    grace = GRACEFUL
+    if params.get("reload_graceful") is not None and o.arbiter is not None:
+        grace = o.arbiter.cfg.graceful_timeout       # the configuration the master itself has in force
+        at = ":after-reload-changing-graceful-timeout" + at
     if o.end == "exception":
         return [("escaped-run:%s%s" % (o.exc.split(":")[0], at), "exception left Arbiter.run(): %s" % o.exc)]
     if o.end != "exit":
@@ -69,13 +79,13 @@ def sim_judge(params, k, o, stop_sig, label=None):
             first_stop = t[3]
             break
     if first_stop is not None:
-        if k.now - first_stop > GRACEFUL + 0.11:
-            bad.append(("exit-too-late" + at, "master exited %.2f s after telling workers to stop, graceful_timeout %d" % (k.now - first_stop, GRACEFUL)))
+        if k.now - first_stop > grace + 0.11:
+            bad.append(("exit-too-late" + at, "master exited %.2f s after telling workers to stop, graceful_timeout %d" % (k.now - first_stop, grace)))
     if first_stop is not None and stop_sig == "TERM":
         for (now, pid, sig, snap, was_alive) in k.kills:
-            if sig == signal.SIGKILL and was_alive and now - first_stop < GRACEFUL - 0.11:
+            if sig == signal.SIGKILL and was_alive and now - first_stop < grace - 0.11:
                 bad.append(("killed-before-graceful-timeout" + at, "SIGKILL sent to live worker %d only %.2f s after the graceful stop began (graceful_timeout %d)" % (
-                    pid, now - first_stop, GRACEFUL)))
+                    pid, now - first_stop, grace)))
                 break
     if not all(l.closed for l in k.listeners):
         bad.append(("listener-left-open" + at, "a listening socket was not closed"))
@@ -129,6 +139,17 @@ def sim_part(thorough):
                         for stop in STOP_EVENTS:
                             do_mid = (len(pre) == 0 or thorough) and bind == "tcp"
                             tasks.append((params, pre, stop, do_mid))
+    # reloads that change graceful_timeout before the stop
+    hup_pres = [[("sig", "HUP")], [("sig", "HUP"), ("tick",)], [("sig", "HUP"), ("sig", "HUP")], [("sig", "TTIN"), ("sig", "HUP")]]
+    if thorough:
+        hup_pres += [[("sig", "HUP"), e] for e in pool_events if e != ("tick",)] + [[("exit", 0, 9), ("sig", "HUP")]]
+    for rg in (5, 1):
+        for term in ("late", "never", "now"):
+            for bind in ("tcp", "unix"):
+                params = {"workers": 2, "timeout": 30, "term": term, "bind": bind, "reload_graceful": rg}
+                for pre in hup_pres:
+                    for stop in STOP_EVENTS:
+                        tasks.append((params, pre, stop, thorough and bind == "tcp" and len(pre) == 1))
     res = par.pmap(_sim_task, tasks, chunksize=2)
     viols = {}
     runs = 0
@@ -176,7 +197,8 @@ def _real_cell(cell):
     if second:
         bind = "two"
     binds = "tcp" if bind in ("two", "tcp+unix") else bind
-    late = app == "finishes-late"
+    aged = app == "finishes-late-aged"  # the worker is older than graceful_timeout when the signal arrives
+    late = app == "finishes-late" or aged
     graceful_s = GRACEFUL + 2 if late else GRACEFUL
     if late:
         app = "finishes"
@@ -185,6 +207,8 @@ def _real_cell(cell):
     try:
         if not s.start():
             return ("infrastructure", "server did not start: %s" % s.log_text()[-300:])
+        if aged:
+            time.sleep(graceful_s + 0.6)
         c = s.connect(extra=0) if second else s.connect()
         gate_name = None
         expect_body = None
@@ -230,7 +254,7 @@ def _real_cell(cell):
                 expect_body = b"ok"
         if late:
             # the application finishes well inside the graceful timeout, but after the worker has begun draining
-            time.sleep(1.6)
+            time.sleep(2.4 if aged else 1.6)      # aged: longer than any forced 1 s + 1 s stop, shorter than graceful_timeout
         if gate_name and app == "finishes":
             s.gate.release(gate_name)
         if graceful and app == "finishes" and expect_body is not None:
@@ -290,6 +314,7 @@ def real_cells(thorough):
                 cells.append((wc, "TERM", phase, "finishes-late", "unix"))
                 cells.append((wc, "QUIT", phase, "finishes", "tcp+unix"))
                 cells.append((wc, "TERM", phase, "finishes", "tcp+unix"))
+                cells.append((wc, "TERM", phase, "finishes-late-aged", "tcp"))
     else:
         for wc in classes:
             for phase in PHASES:
@@ -303,6 +328,7 @@ def real_cells(thorough):
             cells.append((wc, "TERM", "app-running", "finishes-late", "two-second"))
             cells.append((wc, "TERM", "response-partial", "finishes-late", "tcp"))
             cells.append((wc, "TERM", "accepted-idle", "finishes", "tcp+unix"))
+            cells.append((wc, "TERM", "app-running", "finishes-late-aged", "tcp"))
     return [c for c in cells if not (c[2] == "keepalive-idle" and c[0] == "sync")]
 
 
